@@ -226,10 +226,24 @@ func (c *compiler) evalFunctionLiteral(node *ast.FunctionLiteral) (interface{}, 
 	return &userFunction{Parameters: params, Block: block}, nil
 }
 
+// unknownIsNil reports whether err is an unknown identifier, which the
+// caller is about to treat as nil. The evaluation goes on, so the statement
+// recorded while the error was raised (inside a function body, say) is
+// dropped in favour of stmt, the one that was current before: a later error
+// belongs to that statement.
+func (c *compiler) unknownIsNil(err error, stmt ast.Statement) bool {
+	if _, ok := err.(*ErrUnknownIdentifier); !ok {
+		return false
+	}
+	c.curStmt = stmt
+	return true
+}
+
 func (c *compiler) evalPrefixExpression(node *ast.PrefixExpression) (interface{}, error) {
+	stmt := c.curStmt
 	res, err := c.evalExpression(node.Right)
 	if err != nil {
-		if _, ok := err.(*ErrUnknownIdentifier); !ok {
+		if !c.unknownIsNil(err, stmt) {
 			return nil, err
 		}
 	}
@@ -243,9 +257,10 @@ func (c *compiler) evalPrefixExpression(node *ast.PrefixExpression) (interface{}
 }
 
 func (c *compiler) evalIfExpression(node *ast.IfExpression) (interface{}, error) {
+	stmt := c.curStmt
 	con, err := c.evalExpression(node.Condition)
 	if err != nil {
-		if _, ok := err.(*ErrUnknownIdentifier); !ok {
+		if !c.unknownIsNil(err, stmt) {
 			return nil, err
 		}
 	}
@@ -259,10 +274,11 @@ func (c *compiler) evalIfExpression(node *ast.IfExpression) (interface{}, error)
 
 func (c *compiler) evalElseAndElseIfExpressions(node *ast.IfExpression) (interface{}, error) {
 	var r interface{}
+	stmt := c.curStmt
 	for _, eiNode := range node.ElseIf {
 		eiCon, err := c.evalExpression(eiNode.Condition)
 		if err != nil {
-			if _, ok := err.(*ErrUnknownIdentifier); !ok {
+			if !c.unknownIsNil(err, stmt) {
 				return nil, err
 			}
 		}
@@ -523,12 +539,13 @@ func (c *compiler) evalIdentifier(node *ast.Identifier) (interface{}, error) {
 func (c *compiler) evalInfixExpression(node *ast.InfixExpression) (interface{}, error) {
 	// an unknown identifier counts as nil for '==', '!=', and logical
 	// operators; every other failure fails the expression
+	stmt := c.curStmt
 	tolerated := func(err error) bool {
-		if _, ok := err.(*ErrUnknownIdentifier); !ok {
-			return false
+		if node.Operator == "==" || node.Operator == "!=" ||
+			node.Operator == "||" || node.Operator == "&&" {
+			return c.unknownIsNil(err, stmt)
 		}
-		return node.Operator == "==" || node.Operator == "!=" ||
-			node.Operator == "||" || node.Operator == "&&"
+		return false
 	}
 
 	lres, err := c.evalExpression(node.Left)
